@@ -79,6 +79,16 @@ def gen_renames(rng, spec):
                 continue
             if rng.random() < 0.4:
                 out.append([k, i, 'renamed-%s-%d' % (k[:3], i)])
+    # effect-internal links: rename the sampler and/or surface parameters of textured effects,
+    # on loaded effects and on an effect constructed through the API, before or after a first save
+    for i, oid in enumerate(order.get('effects', [])):
+        if rng.random() < 0.6:
+            out.append(['fxparams', i, [rng.choice(['sampler', 'surface', 'both']), '-r%d' % i]])
+    if rng.random() < 0.5:
+        out.append(['construct', 0])
+        out.append(['fxparams', len(order.get('effects', [])), [rng.choice(['sampler', 'surface', 'both']), '-rc']])
+    if rng.random() < 0.3:
+        out.append(['save-first'])
     return out
 
 
